@@ -114,6 +114,9 @@ type Spec struct {
 	ExtPkgs   []ExtPkg
 	ExtraDecl string // extra package-level declarations (hostile identifiers)
 	Dynamic   bool   // all needed types carry identity; runnable
+	WireAltAliases bool // wire_sets.go imports every sibling package under another alias than wire.go
+	WireAllInSets  bool // every wire element goes into a named set (wire_sets.go)
+	KessokuAlias string // declaration files import kessoku under this alias (and the package declares an identifier "kessoku")
 	Seed      int64
 }
 
